@@ -37,7 +37,8 @@ type Scenario struct {
 	Options Options  `json:"options"`
 	Notes   []string `json:"notes,omitempty"` // features planted by the generator
 	Webhook string   `json:"webhook_body,omitempty"`
-	Reread  bool     `json:"reread,omitempty"` // directed scenarios: persist and re-read the session at every wait
+	Reread  bool     `json:"reread,omitempty"`       // directed scenarios: persist and re-read the session at every wait
+	Coarse  int      `json:"coarse_clock,omitempty"` // > 1: the clock advances only with every n-th read (limited resolution)
 }
 
 func (s *Scenario) AssetsJSON() []byte  { b, _ := json.Marshal(s.Assets); return b }
